@@ -1668,6 +1668,7 @@ impl<'a, 'b, W: Write> Serializer for &'a mut YamlSerializer<'b, W> {
         if self.pending_space_after_colon {
             // Value position after a map key: start the variant mapping on the next line.
             self.pending_space_after_colon = false;
+            self.pending_inline_map = false;
             self.newline()?;
             // Indent the variant name one level under the parent mapping.
             let base = self.current_map_depth.unwrap_or(self.depth) + 1;
